@@ -66,7 +66,7 @@ Proof. exact initlist_regression. Qed.
 Print Assumptions C09_initlist_regression.
 
 (** Refutations of the full statement on the faithful model, each replayed on the implementation
-    by the harness (regions "root-revival", "expired", "stale-done"). *)
+    by the harness (regions "root-revival", "expired", "stale-done", "nocancel-gen"). *)
 Theorem C09_statement_refuted : ~ C09_statement.
 Proof. exact contract_exits_refuted. Qed.
 Print Assumptions C09_statement_refuted.
@@ -95,6 +95,37 @@ Theorem C09_stalechan_refuted :
   /\ stuck F_stale (do_action F_stale s1 AStop) 1 = true /\ exited s2 1 = false.
 Proof. exact stalechan_refuted. Qed.
 Print Assumptions C09_stalechan_refuted.
+
+(** Region "next-eval-race": when EvalWithContext returns the goroutine of the cancelled evaluation
+    is still inside Execute (not exited, phases pending) and goes on reading interpreter state while
+    the host's next evaluation writes it (in the model the pending init functions and main even take
+    the refreshed generation and run: region "root-revival"); on the implementation: "fatal error: concurrent map read
+    and map write" (interp.scopes, read by Execute without the lock), the host process dies. *)
+Theorem C09_abandoned_execute_refuted :
+  let s1 := run F_init fresh H_init in
+  let s2 := run F_init s1 [AStop; AExecute [PRoot 0]] in
+  exited s2 0 = false /\ phases (thread_of s2 0) = [PFun 2; PFun 3]
+  /\ ticks_of (new_events s1 (run F_init s2 (alone 0 40))) = [1; 2; 2; 3; 3; 3].
+Proof. exact abandoned_execute_refuted. Qed.
+Print Assumptions C09_abandoned_execute_refuted.
+
+(** Region "nocancel-gen": whether send / receive / two-value receive can be cancelled is decided
+    when their code is generated, from interp.cancelChan, which is false until the interpreter's
+    first *WithContext call: code loaded before by a plain Eval / EvalPath / import stays
+    non-cancellable for ever (first outcome: one goroutine left); every other cell of the session
+    matrix exits. *)
+Theorem C09_nocancel_gen_refuted :
+  y_outcomes (sess_F false LEval KRecv) (sess_park false LEval) = [(false, [], 1)]
+  /\ y_outcomes (sess_F true LEval KRecv) (sess_park true LEval) = [(false, [], 0)]
+  /\ y_outcomes (sess_F false LEvalCtx KRecv) (sess_park false LEvalCtx) = [(false, [], 0)]
+  /\ y_outcomes (sess_F false LEval KRange) (sess_park false LEval) = [(false, [], 0)].
+Proof. exact nocancel_gen_refuted. Qed.
+Print Assumptions C09_nocancel_gen_refuted.
+
+Theorem C09_gen_cancellable :
+  forall c h, (c = KRange \/ c = KSelect \/ begun h = true) -> gen_canc c (begun h) = true.
+Proof. exact gen_canc_sound. Qed.
+Print Assumptions C09_gen_cancellable.
 
 (** Not the gate but what the cancellation set off (finding C09-literal-slot, repaired by abe7a69):
     the frame slot of a function literal used to be set back to its earlier content whenever a call
